@@ -127,16 +127,6 @@ where
     fn keys(&self) -> Option<KeyMap> {
         self.inner.keys()
     }
-
-    fn track_field(&self) {
-        let inner = self
-            .inner
-            .get_trigger(self.inner.path().into_iter().collect());
-        inner.this.track();
-        let trigger = self.get_trigger(self.path().into_iter().collect());
-        trigger.this.track();
-        trigger.children.track();
-    }
 }
 
 impl<Inner, Prev, K, T> KeyedSubfield<Inner, Prev, K, T>
